@@ -21,6 +21,7 @@ import (
 
 	"elaverif/harness/hx"
 
+	"github.com/elastos/Elastos.ELA/auxpow"
 	"github.com/elastos/Elastos.ELA/common"
 	"github.com/elastos/Elastos.ELA/common/config"
 	transaction2 "github.com/elastos/Elastos.ELA/core/transaction"
@@ -353,7 +354,9 @@ func doBranch(m msg.MerkleBlock, txid common.Uint256) string {
 	if err != nil {
 		return classify(err)
 	}
-	return fmt.Sprintf("ok %d %s", mb.Index, catHexV(mb.Branches))
+	// the branch is evaluated by the real auxpow.GetMerkleRoot (anchor "branch evaluation")
+	ev := auxpow.GetMerkleRoot(txid, mb.Branches, mb.Index)
+	return fmt.Sprintf("ok %d %s eval=%s", mb.Index, catHexV(mb.Branches), hex.EncodeToString(ev[:]))
 }
 
 func exec(t []string) string {
@@ -446,6 +449,18 @@ func matchedIDs(txs []*common.Uint256, bits string) string {
 //   branchrt:  for a matched transaction the branch recomputes the block's merkle root;
 //   check:     an accepted message (against the true root, honest count) yields only ids of the block.
 func oracle(t []string, out string) *hx.Violation {
+	if strings.HasPrefix(out, "copies-differ ") {
+		// elanet/bloom and elanet/filter answer differently: judge each answer on its own
+		for _, part := range strings.Fields(out)[1:] {
+			if k := strings.Index(part, "="); k > 0 {
+				if v := oracle(t, strings.ReplaceAll(part[k+1:], ":", " ")); v != nil {
+					v.Detail = part[:k] + ": " + v.Detail
+					return v
+				}
+			}
+		}
+		return nil
+	}
 	switch t[0] {
 	case "build":
 		txs := hashes(t[1])
@@ -466,12 +481,15 @@ func oracle(t []string, out string) *hx.Violation {
 			return nil // the property speaks about matched transactions
 		}
 		f := strings.Fields(out)
-		if len(f) != 3 || f[0] != "ok" {
+		if len(f) != 4 || f[0] != "ok" {
 			return &hx.Violation{Kind: "branch-missing", Detail: "no branch for a matched transaction"}
 		}
 		idx, _ := strconv.Atoi(f[1])
 		if hex.EncodeToString(refFold(txs[i][:], hashes(f[2]), idx)) != hex.EncodeToString(refRoot(txs)) {
 			return &hx.Violation{Kind: "branch-root", Detail: "branch of a matched transaction does not recompute the merkle root"}
+		}
+		if f[3] != "eval="+hex.EncodeToString(refRoot(txs)) {
+			return &hx.Violation{Kind: "branch-eval", Detail: "auxpow.GetMerkleRoot does not evaluate the branch of a matched transaction to the block's merkle root"}
 		}
 	case "nmb":
 		if !strings.HasSuffix(out, " rec=ok") && !strings.HasPrefix(out, "oracle-mismatch") {
